@@ -8,7 +8,7 @@ ID = "C14"
 TECHNIQUE = ("exhaustive enumeration of the finite domain (all 2231 names x follower classes x 5 contexts; all numeric values "
              "0..0x110000 + overflow samples x dec/x/X x ';'/none; all code points through entity-encoding) against an "
              "independent oracle (html.entities.html5 + numeric rules written from the standard)")
-RULE = ("Named: every key of html.entities.html5 (2231 names, with and without ';' as listed) x follower in {EOF ; = a Z 0 9 space < & \" ' > # x} "
+RULE = ("Named: every key of html.entities.html5 (2231 names, with and without ';' as listed) and every ';'-less stem that is not a key (2125; must stay literal) x follower in {EOF ; = a Z 0 9 space < & \" ' > # x} "
         "x context in {data, RCDATA, double-, single-, un-quoted attribute value}, observed through the tokenizer and through parseFragment. "
         "Numeric: every value 0..0x110000 (quick: a stratified 1/8 slice plus all special values) and overflow samples x {decimal, x, X} x {';', none}, "
         "batched ~400 per document and compared as a whole, bisected on mismatch. Reverse: every non-surrogate code point except NUL (CR is a recorded finding) serialised as "
@@ -20,6 +20,8 @@ SHRINK = {}
 
 HTML5 = html.entities.html5
 NAMES = sorted(HTML5)
+# ';'-less stems that are NOT in the table: they must not decode as a whole (only a shorter legacy name inside them may)
+STEMS = sorted(set(n[:-1] for n in HTML5 if n.endswith(";")) - set(HTML5))
 _MAXLEN = max(len(k) for k in NAMES)
 _ALNUM = set("abcdefghijklmnopqrstuvwxyzABCDEFGHIJKLMNOPQRSTUVWXYZ0123456789")
 _DIG = set("0123456789")
@@ -309,10 +311,10 @@ def run_shard(desc, seed, tier):
     acc = Acc()
     kind = desc["kind"]
     if kind == "named":
-        mine = NAMES[desc["part"]::desc["of"]]
+        mine = NAMES[desc["part"]::desc["of"]] + STEMS[desc["part"]::desc["of"]]
         n = 0
         for name in mine:
-            for fol in FOLLOWERS:
+            for fol in (FOLLOWERS if name in HTML5 else ["", "=", "a", "0", " ", "<", "&", "x"]):
                 for ctx in CONTEXTS:
                     for tail in ("", "z"):
                         payload = "&" + name + fol + (tail if fol else "")
